@@ -3,7 +3,9 @@
  * Case (one line):  <cap> ; op op ... ; beh0 | beh1 | ...      (see ocaml/drv_c13.ml)
  *   I<l> uv_signal_init on loop l      S<h>,<sig> uv_signal_start
  *   O<h>,<sig> uv_signal_start_oneshot T<h> uv_signal_stop   C<h> uv_close
- *   R<l> uv_run(loop l, UV_RUN_NOWAIT)
+ *   R<l> uv_run(loop l, UV_RUN_NOWAIT)   U<l> uv_stop(loop l)
+ *   J<h> uv_signal_init again on slot h (same loop) once its close_cb has run: the memory of a
+ *        closed handle is used for a new handle
  *   K<sig>[,<t>[,<m>]] deliver sig to thread t (0..NLOOPS-1 = the loop threads, NLOOPS = the
  *       script thread; default: the thread executing the script) unless the disposition is not
  *       a handler; m = 0: raise() executed on t, m = 1: pthread_kill(t) from the current thread
@@ -15,6 +17,13 @@
  * handle are executed on the thread of the handle's loop, also when the script of a callback
  * running on another loop's thread asks for them.  Every callback records whether it runs on the
  * thread of its handle's loop ("W" appended to the token when it does not).
+ *
+ * Fork family (line starts with "fork "):  fork <cap> ; prefix ops ; p:op c:op ... ; beh0 | ...
+ *   one loop on the main thread; after the prefix the process forks, the child calls
+ *   uv_loop_fork() and reports whether its signal pipe is a new one ("f0") or still the inherited
+ *   one ("fS", decided by the inode numbers of the pipe ends); then the two processes execute
+ *   their own ops (p: parent, c: child), one at a time in script order (turns passed over pipes);
+ *   K = kill(getpid(), sig).  Output: parent trace "||" child trace.
  *
  * Every case runs in a forked child (signal state is process-wide); a child that dies prints
  * "crash <status>".  Handles and loops live in static arrays so that their address order is
@@ -29,6 +38,7 @@
 #include <pthread.h>
 #include <semaphore.h>
 #include <sys/wait.h>
+#include <sys/stat.h>
 #include "uv.h"
 
 #define MAXH 8
@@ -50,7 +60,8 @@ static int nloops, cap;
 static uv_loop_t loops[NLOOPS];
 static uv_prepare_t keep[NLOOPS];
 static uv_signal_t hs[MAXH];
-static int nh, closing[MAXH], hloop[MAXH];
+static int nh, closing[MAXH], closed[MAXH], hloop[MAXH];
+static int fork_mode;
 static char* beh[MAXB];
 static int nbeh, cb_cnt, in_cb;
 static const int wsigs[4] = { SIGHUP, SIGUSR1, SIGUSR2, SIGWINCH };
@@ -87,6 +98,7 @@ static void prep_cb(uv_prepare_t* p) { (void) p; }
 
 static void close_cb(uv_handle_t* h) {
   int i = (int) ((uv_signal_t*) h - hs);
+  closed[i] = 1;
   printf("z%d%s ", i, on_loop_thread(hloop[i]) ? "" : "W");
 }
 
@@ -111,9 +123,9 @@ static int token_thread(const char* tok) {
   int a = 0, b = 0, c = 0;
   int n = sscanf(tok + 1, "%d,%d,%d", &a, &b, &c);
   switch (tok[0]) {
-  case 'I': case 'R':
+  case 'I': case 'R': case 'U':
     return (n >= 1 && a >= 0 && a < nloops) ? a : -1;
-  case 'S': case 'O': case 'T': case 'C':
+  case 'S': case 'O': case 'T': case 'C': case 'J':
     return (n >= 1 && a >= 0 && a < nh) ? hloop[a] : -1;
   case 'K':
     if (n >= 3 && c == 1) return -1;                   /* pthread_kill: sent from the current thread */
@@ -145,11 +157,22 @@ static void do_token(char* tok) {
     if (n >= 1 && legal(a)) { closing[a] = 1; uv_close((uv_handle_t*) &hs[a], close_cb); printf("k "); }
     else printf("x ");
     break;
+  case 'U':
+    if (n >= 1 && a >= 0 && a < nloops) { uv_stop(&loops[a]); printf("r0 "); } else printf("x ");
+    break;
+  case 'J':
+    if (n >= 1 && a >= 0 && a < nh && closed[a]) {
+      closing[a] = closed[a] = 0;
+      uv_signal_init(&loops[hloop[a]], &hs[a]);       /* the storage of the closed handle is used again */
+      printf("r0 ");
+    } else printf("x ");
+    break;
   case 'K':
     if (n >= 1 && a > 0 && a < 65) {
       char ch = disp_char(a);
       if (ch == 'H' || ch == 'R') {
-        if (n >= 3 && c == 1) {
+        if (fork_mode) kill(getpid(), a);
+        else if (n >= 3 && c == 1) {
           /* pthread_kill to a parked loop thread (or to ourselves / the script thread when that is us);
            * the round trip afterwards makes sure the handler has run before the script goes on */
           if (b >= 0 && b < nloops && !pthread_equal(pthread_self(), wk[b].tid)) {
@@ -268,6 +291,95 @@ static void run_case(char* line) {
   printf("\n");
 }
 
+static ino_t fd_ino(int fd) { struct stat st; if (fstat(fd, &st)) return 0; return st.st_ino; }
+
+static int read1(int fd) {
+  char b; int r;
+  do r = (int) read(fd, &b, 1); while (r < 0 && errno == EINTR);
+  return r;
+}
+
+/* fork <cap> ; prefix ; tagged ; behs */
+static void run_fork_case(char* line) {
+  char *p1, *p2, *p3, *s, *save = NULL, *tok;
+  int p2c[2], c2p[2], cout[2], is_child;
+  ino_t ino0, ino1;
+  pid_t pid;
+  fork_mode = 1;
+  p1 = strchr(line, ';'); if (!p1) { printf("badcase\n"); return; }
+  *p1++ = 0;
+  p2 = strchr(p1, ';'); if (!p2) { printf("badcase\n"); return; }
+  *p2++ = 0;
+  p3 = strchr(p2, ';'); if (!p3) { printf("badcase\n"); return; }
+  *p3++ = 0;
+  cap = atoi(line);
+  nloops = 1;
+  for (s = p3; *s; s++) if (*s == '\n') *s = 0;
+  for (s = p3;;) {
+    char* e = strchr(s, '|');
+    if (e) *e = 0;
+    if (nbeh < MAXB) beh[nbeh++] = s;
+    if (!e) break;
+    s = e + 1;
+  }
+  main_tid = pthread_self();
+  wk[0].idx = 0; wk[0].tid = pthread_self();         /* the loop lives on this thread: no workers */
+  exec_on(0, C_INITLOOP, NULL);
+  if (wk[0].ret) { printf("envfail loop_init %d\n", wk[0].ret); return; }
+  do_ops(p1);
+  if (pipe(p2c) || pipe(c2p) || pipe(cout)) { printf("envfail pipe\n"); return; }
+  ino0 = fd_ino(loops[0].signal_pipefd[0]); ino1 = fd_ino(loops[0].signal_pipefd[1]);
+  fflush(stdout);
+  pid = fork();
+  if (pid < 0) { printf("envfail fork2\n"); return; }
+  is_child = pid == 0;
+  if (is_child) {
+    int r;
+    alarm(20);
+    close(p2c[1]); close(c2p[0]); close(cout[0]);
+    dup2(cout[1], 1);                                /* the child's trace goes to the parent */
+    wk[0].tid = pthread_self();
+    r = uv_loop_fork(&loops[0]);
+    if (r) printf("f!%d ", r);
+    else if (fd_ino(loops[0].signal_pipefd[0]) == ino0 || fd_ino(loops[0].signal_pipefd[1]) == ino1)
+      printf("fS ");                                 /* still the pipe of the parent */
+    else printf("f0 ");
+    snap();
+  } else {
+    close(p2c[0]); close(c2p[1]); close(cout[1]);
+    printf("fp ");
+  }
+  for (tok = strtok_r(p2, " \n", &save); tok; tok = strtok_r(NULL, " \n", &save)) {
+    int mine = (tok[0] == 'c') == is_child;
+    if (tok[1] != ':') continue;
+    if (mine) {
+      char one[64];
+      snprintf(one, sizeof one, "%s", tok + 2);
+      do_ops(one);
+      fflush(stdout);
+      if (write(is_child ? c2p[1] : p2c[1], "t", 1) != 1) break;
+    } else if (read1(is_child ? p2c[0] : c2p[0]) != 1) {
+      printf("peerdied ");
+      break;
+    }
+  }
+  if (is_child) { fflush(stdout); _exit(0); }
+  {
+    char buf[4096]; int r, st = 0;
+    printf("|| ");
+    fflush(stdout);
+    close(p2c[1]);
+    for (;;) {
+      do r = (int) read(cout[0], buf, sizeof buf); while (r < 0 && errno == EINTR);
+      if (r <= 0) break;
+      fwrite(buf, 1, (size_t) r, stdout);
+    }
+    while (waitpid(pid, &st, 0) < 0 && errno == EINTR) ;
+    if (!WIFEXITED(st) || WEXITSTATUS(st) != 0) printf("childcrash %d ", st);
+    printf("\n");
+  }
+}
+
 int main(void) {
   static char line[1 << 16];
   {
@@ -287,7 +399,7 @@ int main(void) {
     pid = fork();
     if (pid == 0) {
       alarm(20);
-      run_case(line);
+      if (strncmp(line, "fork ", 5) == 0) run_fork_case(line + 5); else run_case(line);
       fflush(stdout);
       _exit(0);
     }
